@@ -549,3 +549,147 @@ Proof.
   - slot_off 0%nat 0%nat. rewrite (tab_load _ t 0 0 (cs_path s) _ Hm5 Hs) by (try lia; reflexivity). rewrite E. xstep.
     rewrite callx_S, x_reg_put_none. cbn [path_arg is_null] in Hext. rewrite Hext. reflexivity.
 Qed.
+
+(* ------------------------------------------------------------------ whole slots: memcpy / memmove of struct buf objects *)
+Lemma tab_slice t i : Forall slot_ok t -> (i < length t)%nat -> firstn 41 (skipn (41 * i) (tab_cells t)) = slot_cells (nths t i).
+Proof.
+  intros Hs Hi. unfold tab_cells. rewrite (chunks_skipn slot_cells 41 t (tab_chunks t Hs)). rewrite (nths_skipn t i Hi).
+  cbn [flat_map]. assert (H : slot_ok (nths t i)) by (rewrite Forall_forall in Hs; apply Hs, nth_In; exact Hi).
+  rewrite firstn_app, (slot_len _ H), Nat.sub_diag, firstn_O, app_nil_r. apply firstn_all2. rewrite (slot_len _ H). lia.
+Qed.
+Lemma switch_nth0 (t : list cslot) i : (i < length t)%nat -> nths (switch t i) 0 = nths t i.
+Proof. intro H. unfold switch, nths. rewrite (nth_error_nth' t cs_zero H). reflexivity. Qed.
+Lemma switch_eq (t : list cslot) i : (i < length t)%nat -> switch t i = nths t i :: firstn i t ++ skipn (S i) t.
+Proof. intro H. unfold switch, nths. rewrite (nth_error_nth' t cs_zero H). reflexivity. Qed.
+Lemma tab_ok_switch t i : tab_ok t -> (i < 16)%nat -> tab_ok (switch t i).
+Proof.
+  intros [Hl Hs] Hi. rewrite switch_eq by lia. split.
+  - cbn [length]. rewrite app_length, firstn_length, skipn_length. lia.
+  - constructor; [rewrite Forall_forall in Hs; apply Hs, nth_In; lia|]. apply Forall_app. split; [apply Forall_firstn'|apply Forall_skipn']; exact Hs.
+Qed.
+Lemma tab_ok_save0 t r o tp l td : tab_ok t -> tab_ok (save0 t r o tp l td).
+Proof. intros [Hl Hs]. destruct t as [|s rest]; [discriminate|]. split; [exact Hl|]. inversion Hs; subst. constructor; assumption. Qed.
+Lemma save0_lb t r o tp l td : cs_lb (nths (save0 t r o tp l td) 0) = cs_lb (nths t 0).
+Proof. destruct t; reflexivity. Qed.
+
+Lemma put_whole {A} (l vs : list A) : length vs = length l -> put_cells l 0 vs = vs.
+Proof. intro H. rewrite put_cells_0, skipn_all2 by lia. apply app_nil_r. Qed.
+(* memmove(&bufs[1], &bufs[0], idx slots); memcpy(&bufs[0], the old slot idx): the rotation BufsDefs.switch *)
+Lemma switch_cells t i : tab_ok t -> (i < 16)%nat ->
+  put_cells (put_cells (tab_cells t) 41 (firstn (41 * i) (tab_cells t))) 0 (slot_cells (nths t i)) = tab_cells (switch t i).
+Proof.
+  intros [Hl Hs] Hi. pose proof (tab_chunks t Hs) as Hc. unfold tab_cells.
+  rewrite (chunks_firstn slot_cells 41 t Hc).
+  assert (Hc1 : chunks_ok slot_cells 41 (firstn i t)) by (apply tab_chunks, Forall_firstn'; exact Hs).
+  change 41%nat with (41 * 1)%nat at 1. rewrite (chunks_put slot_cells 41 t (firstn i t) 1 Hc Hc1) by (rewrite firstn_length; lia).
+  rewrite firstn_length, Nat.min_l by lia.
+  set (mid := firstn 1 t ++ firstn i t ++ skipn (1 + i) t).
+  assert (Hsi : slot_ok (nths t i)) by (rewrite Forall_forall in Hs; apply Hs, nth_In; lia).
+  assert (Hcm : chunks_ok slot_cells 41 mid).
+  { apply tab_chunks. unfold mid. repeat (apply Forall_app; split); try apply Forall_firstn'; try apply Forall_skipn'; exact Hs. }
+  assert (Hc2 : chunks_ok slot_cells 41 [nths t i]) by (apply tab_chunks; constructor; [exact Hsi|constructor]).
+  replace (slot_cells (nths t i)) with (flat_map slot_cells [nths t i]) by (cbn [flat_map]; apply app_nil_r).
+  change 0%nat with (41 * 0)%nat. rewrite (chunks_put slot_cells 41 mid [nths t i] 0 Hcm Hc2).
+  2:{ unfold mid. rewrite !app_length, !firstn_length, skipn_length. cbn [length]. lia. }
+  f_equal. rewrite switch_eq by lia. cbn [firstn app length Nat.add]. f_equal.
+  unfold mid. destruct t as [|x rest]; [discriminate Hl|]. reflexivity.
+Qed.
+
+(* ------------------------------------------------------------------ bufs_switch *)
+Definition same_on (bs : list nat) (m1 m2 : mem) : Prop := forall b, In b bs -> nth_error m2 b = nth_error m1 b.
+(* if (bufs[0].lb) lbuf_modified(bufs[0].lb): nothing for NULL, else the translated lbuf_modified runs on that pointer and leaves m2 *)
+Definition bump_call ext fuel d (v : val) (m1 m2 : mem) : Prop :=
+  if is_null v then m2 = m1 else exists u, callx ext cprog fuel (S (S d)) F_lbuf_modified [v] m1 = Ok (u, m2).
+
+Theorem tr_bufs_switch ext m t r o tp l td i m2 u m' d fuel :
+  tab_at m t -> tab_ok t -> globs_at m r o tp l td -> int_ok r -> int_ok o -> int_ok tp -> int_ok l -> int_ok td ->
+  (i < 16)%nat -> ptr_val (cs_lb (nths t 0)) ->
+  let t1 := save0 t r o tp l td in
+  let m1 := upd (m ++ [repeat VUndef 41]) G_bufs (tab_cells t1) in
+  bump_call ext fuel d (cs_lb (nths t 0)) m1 m2 -> length m2 = length m1 ->
+  same_on [G_bufs; length m; G_xrow; G_xoff; G_xtop; G_xleft; G_xtd] m1 m2 ->
+  let sx := nths t1 i in
+  slot_ints sx -> ptr_val (cs_path sx) ->
+  let m4 := upd (upd m2 (length m) (slot_cells sx)) G_bufs (tab_cells (switch t1 i)) in
+  ext X_reg_put [VInt 37; path_arg (cs_path sx); VInt 0] (set_globs m4 (cs_row sx) (cs_off sx) (cs_top sx) (cs_left sx) (cs_td sx)) = Ok (u, m') ->
+  callx ext cprog fuel (S (S (S d))) F_bufs_switch [VInt (Z.of_nat i)] m = Ok (VUndef, m').
+Proof.
+  intros Hm Ht Hg Ir Io Itp Il Itd Hi Hlb t1 m1 Hbump Hlen Hsame sx Hints Hpx m4 Hext.
+  pose proof Ht as [Hl Hs]. pose proof Hg as [G1 G2 G3 G4 G5].
+  assert (Hb : (G_bufs < length m)%nat) by (apply nth_error_Some; unfold tab_at in Hm; congruence).
+  set (m0 := m ++ [repeat VUndef 41]).
+  assert (Hm0 : tab_at m0 t) by (unfold tab_at, m0; rewrite nth_error_app_old by exact Hb; exact Hm).
+  assert (Hg0 : globs_at m0 r o tp l td).
+  { constructor; unfold cell_at, m0; rewrite nth_error_app_old; try assumption; eapply cell_lt; eassumption. }
+  assert (Ht1 : tab_ok t1) by (apply tab_ok_save0; exact Ht).
+  enterx F_bufs_switch cf_bufs_switch. xstep. rewrite (malloc_ok m 41) by lia. xstep. change (Z.to_nat 41) with 41%nat. fold m0.
+  rewrite (callx_mono ext cprog fuel (S (S d)) F_bufs_save [] m0 _ (tr_bufs_save m0 t r o tp l td (S d) fuel Hm0 Ht Hg0 Ir Io Itp Il Itd)).
+  xcbn. fold t1. change (upd m0 G_bufs (tab_cells t1)) with m1. rewrite exec_seq.
+  assert (Hl0 : length m0 = S (length m)) by (unfold m0; rewrite app_length; cbn [length]; lia).
+  assert (Hl1 : length m1 = S (length m)) by (unfold m1; fold m0; rewrite upd_length by lia; exact Hl0).
+  assert (Hm1 : tab_at m1 t1) by (apply (tab_at_upd m0 t t1 Hm0)).
+  assert (Hm2 : tab_at m2 t1) by (unfold tab_at; rewrite (Hsame G_bufs) by (left; reflexivity); exact Hm1).
+  assert (Htmp2 : nth_error m2 (length m) = Some (repeat VUndef 41)).
+  { rewrite (Hsame (length m)) by (right; left; reflexivity). unfold m1. fold m0. rewrite mem_upd_other by lia. apply nth_error_app_new. }
+  pose proof Ht1 as [Hl1' Hs1].
+  (* if (bufs[0].lb) lbuf_modified(bufs[0].lb) *)
+  match goal with |- context [exec ?c ?f (SIf ?e ?a ?b) ?st] =>
+    assert (Hif : exec c f (SIf e a b) st = ONormal (mkst [VInt (Z.of_nat i); VPtr (length m) 0] m2)) end.
+  { xstep. slot_off 0%nat 1%nat. rewrite (tab_load m1 t1 0 1 (cs_lb (nths t1 0)) _ Hm1 Hs1) by (try lia; reflexivity).
+    unfold t1. rewrite save0_lb. fold t1. unfold bump_call in Hbump.
+    destruct Hlb as [E|[b [ob E]]]; rewrite E in *; cbn [is_null] in Hbump; xstep.
+    - rewrite Hbump. reflexivity.
+    - slot_off 0%nat 1%nat. rewrite (tab_load m1 t1 0 1 (cs_lb (nths t1 0)) _ Hm1 Hs1) by (try lia; reflexivity).
+      unfold t1. rewrite save0_lb, E. fold t1. xstep. destruct Hbump as [u0 Hbump]. rewrite Hbump. reflexivity. }
+  rewrite Hif. clear Hif. xstep.
+  (* memcpy(&tmp, &bufs[idx], sizeof(tmp)) *)
+  change (chk U64 (80 * 41)) with (@Ok Z 3280). xstep.
+  change (if 80 =? 0 then Err EDivZero else chk U64 (3280 ÷ 80)) with (@Ok Z 41). xstep.
+  rewrite (memcpy_ok m2 (length m) 0 G_bufs (0 + 41 * Z.of_nat i) 41 _ _ Htmp2 Hm2) by (rewrite ?repeat_length, ?(tab_len t1 Ht1); lia).
+  xstep. change (Z.to_nat 41) with 41%nat. change (Z.to_nat 0) with 0%nat. replace (Z.to_nat (0 + 41 * Z.of_nat i)) with (41 * i)%nat by lia.
+  rewrite (tab_slice t1 i Hs1) by lia. fold sx.
+  assert (Hsx : slot_ok sx) by (unfold sx; rewrite Forall_forall in Hs1; apply Hs1, nth_In; lia).
+  rewrite put_whole by (rewrite repeat_length; apply slot_len; exact Hsx).
+  set (m3 := upd m2 (length m) (slot_cells sx)).
+  assert (Hl2 : (length m < length m2)%nat) by lia.
+  assert (Hm3 : tab_at m3 t1) by (apply tab_at_upd_other; [lia|exact Hl2|exact Hm2]).
+  assert (Htmp3 : nth_error m3 (length m) = Some (slot_cells sx)) by (apply mem_upd_same; exact Hl2).
+  (* memmove(&bufs[1], &bufs[0], sizeof(tmp) * idx) *)
+  rewrite (wrap_U64_id (Z.of_nat i)) by lia. rewrite (chk_U64 (80 * Z.of_nat i)) by lia. xstep.
+  rewrite (chk_U64 (80 * Z.of_nat i * 41)) by lia. xstep. change (80 =? 0) with false. cbv iota.
+  replace (80 * Z.of_nat i * 41 ÷ 80) with (41 * Z.of_nat i) by (replace (80 * Z.of_nat i * 41) with (41 * Z.of_nat i * 80) by lia; rewrite Z.quot_mul by lia; reflexivity).
+  rewrite (chk_U64 (41 * Z.of_nat i)) by lia. xstep.
+  rewrite (memmove_ok m3 G_bufs (0 + 41 * 1) G_bufs (0 + 41 * 0) (41 * Z.of_nat i) _ _ Hm3 Hm3) by (rewrite ?(tab_len t1 Ht1); lia).
+  xstep. change (Z.to_nat (0 + 41 * 1)) with 41%nat. change (Z.to_nat (0 + 41 * 0)) with 0%nat. replace (Z.to_nat (41 * Z.of_nat i)) with (41 * i)%nat by lia.
+  cbn [skipn].
+  (* memcpy(&bufs[0], &tmp, sizeof(tmp)) *)
+  change (chk U64 (80 * 41)) with (@Ok Z 3280). xstep.
+  change (if 80 =? 0 then Err EDivZero else chk U64 (3280 ÷ 80)) with (@Ok Z 41). xstep.
+  set (Tmid := put_cells (tab_cells t1) 41 (firstn (41 * i) (tab_cells t1))).
+  assert (Hb3 : (G_bufs < length m3)%nat) by (unfold m3; rewrite upd_length by exact Hl2; lia).
+  assert (HTmid : length Tmid = 656%nat).
+  { unfold Tmid. rewrite put_cells_length; rewrite ?firstn_length, ?(tab_len t1 Ht1); lia. }
+  rewrite (memcpy_ok (upd m3 G_bufs Tmid) G_bufs (0 + 41 * 0) (length m) 0 41 Tmid (slot_cells sx)).
+  2:{ apply mem_upd_same. exact Hb3. }
+  2:{ rewrite mem_upd_other by (try exact Hb3; lia). exact Htmp3. }
+  2-6: rewrite ?HTmid, ?(slot_len sx Hsx); lia.
+  xstep. change (Z.to_nat (0 + 41 * 0)) with 0%nat. change (Z.to_nat 0) with 0%nat. change (Z.to_nat 41) with 41%nat. cbn [skipn].
+  rewrite (firstn_all2 (slot_cells sx)) by (rewrite (slot_len sx Hsx); lia).
+  rewrite upd_upd by exact Hb3. unfold Tmid. unfold sx at 1. rewrite (switch_cells t1 i Ht1 Hi). fold sx.
+  change (upd m3 G_bufs (tab_cells (switch t1 i))) with m4.
+  (* bufs_load() *)
+  assert (Hm4 : tab_at m4 (switch t1 i)) by (unfold m4, tab_at; apply mem_upd_same; exact Hb3).
+  assert (Hg4 : globs_at m4 r o tp l td).
+  { assert (Hx : forall g v, In g [G_xrow; G_xoff; G_xtop; G_xleft; G_xtd] -> cell_at m g v -> cell_at m4 g v).
+    { intros g v Hin Hc. pose proof (cell_lt _ _ _ Hc) as Lg. unfold cell_at, m4.
+      rewrite mem_upd_other by (try exact Hb3; destruct Hin as [<-|[<-|[<-|[<-|[<-|[]]]]]]; discriminate).
+      unfold m3. rewrite mem_upd_other by (try exact Hl2; lia).
+      rewrite (Hsame g) by (right; right; exact Hin). unfold m1. fold m0.
+      rewrite mem_upd_other by (try lia; destruct Hin as [<-|[<-|[<-|[<-|[<-|[]]]]]]; discriminate).
+      unfold m0. rewrite nth_error_app_old by exact Lg. exact Hc. }
+    constructor; apply Hx; try assumption; cbn; tauto. }
+  pose proof (tab_ok_switch t1 i Ht1 Hi) as Ht4.
+  assert (Hs0 : nths (switch t1 i) 0 = sx) by (apply switch_nth0; lia).
+  rewrite (tr_bufs_load ext m4 (switch t1 i) r o tp l td u m' d fuel Hm4 Ht4 Hg4); rewrite ?Hs0; try assumption.
+  reflexivity.
+Qed.
